@@ -57,9 +57,27 @@ def point_map(fn, fields=("_x", "_y")):
             return poly.atom(f"{U(e.func).split('.')[-1]}({U(e.args[0])})")
         raise Undecided(U(e))
 
+    def validation_only(st):
+        """a statement that binds nothing and stores nothing: float(x) / assert / `for f in (a, b): float(f)` /
+        `if not ok: raise`"""
+        for n in ast.walk(st):
+            if isinstance(n, (ast.Assign, ast.AugAssign, ast.AnnAssign, ast.Delete, ast.NamedExpr, ast.Return,
+                              ast.Break, ast.Continue)):
+                return False
+            if isinstance(n, ast.Call) and isinstance(n.func, ast.Attribute) and pat_root(n.func.value) == selfn:
+                return False      # a method of the point itself may move it
+        return True
+
+    def pat_root(e):
+        while isinstance(e, (ast.Attribute, ast.Subscript, ast.Call)):
+            e = e.func if isinstance(e, ast.Call) else e.value
+        return e.id if isinstance(e, ast.Name) else None
+
     for st in fn.node.body:
         if isinstance(st, ast.Expr):
             continue   # docstring / validation call such as float(x)
+        if isinstance(st, (ast.For, ast.If, ast.Assert, ast.While, ast.Try, ast.With, ast.Pass)) and validation_only(st):
+            continue
         if isinstance(st, ast.Return):
             break
         if isinstance(st, ast.Assign) and len(st.targets) == 1:
